@@ -18,6 +18,7 @@ type probe struct {
 	items  []int
 	inside int
 	lifo   bool
+	bound  int // > 0: a bounded container, insertions on a full one are refused (never block)
 }
 
 func (p *probe) enter(name string) {
@@ -32,6 +33,13 @@ func (p *probe) add(v int) error {
 	p.enter("add")
 	cur := p.items
 	vsched.Yield()
+	if p.bound > 0 && len(cur) >= p.bound {
+		p.leave()
+		if p.lifo {
+			return fpgo.ErrStackIsFull
+		}
+		return fpgo.ErrQueueIsFull
+	}
 	p.items = append(append([]int{}, cur...), v)
 	p.leave()
 	return nil
@@ -103,9 +111,14 @@ func conScenario(stack bool, inner string, preload []int, threads [][]stepSpec, 
 		Body: func() {
 			var q fpgo.Queue[int]
 			var s fpgo.Stack[int]
+			lin.Cap = 0
 			if inner == "probe" {
 				p := &probe{lifo: stack}
 				q, s = p, p
+			} else if inner == "bounded-probe" {
+				p := &probe{lifo: stack, bound: 2}
+				q, s = p, p
+				lin.Cap = 2
 			} else {
 				l := fpgo.NewLinkedListQueue[int]()
 				q, s = l, l
@@ -213,7 +226,15 @@ func conScenario(stack bool, inner string, preload []int, threads [][]stepSpec, 
 							}
 						}
 					} else if es != "" {
-						fs = append(fs, e1.Fail("C08|"+fam+"|add-failed", "add failed with %q", es))
+						full := fpgo.ErrQueueIsFull.Error()
+						if stack {
+							full = fpgo.ErrStackIsFull.Error()
+						}
+						if inner == "bounded-probe" && es == full {
+							op.Full = true
+						} else {
+							fs = append(fs, e1.Fail("C08|"+fam+"|add-failed", "add failed with %q", es))
+						}
 					}
 				}
 			}
@@ -225,6 +246,10 @@ func conScenario(stack bool, inner string, preload []int, threads [][]stepSpec, 
 				h = append(h, *ops[id])
 			}
 			_ = nops
+			lin.Cap = 0
+			if inner == "bounded-probe" {
+				lin.Cap = 2
+			}
 			if !lin.Linearizable(stack, preloadOrder(preload), h) {
 				fs = append(fs, e1.Fail("C08|"+fam+"|not-linearizable", "history has no sequential explanation consistent with real time: %v", h))
 			}
@@ -284,6 +309,21 @@ func scenarios(tier string) []*vsched.Scenario {
 			sc{nil, [][]stepSpec{{ps(1), pp(), ps(3)}, {ps(2), pp(), pp()}}},
 			sc{[]int{7}, [][]stepSpec{{pp(), ps(1)}, {pp(), ps(2)}, {pp()}}},
 			sc{[]int{7, 8, 9}, [][]stepSpec{{pp(), pp()}, {pp(), pp()}}})
+	}
+	// a bounded wrapped container (2 slots, refuses instead of blocking): insertions that find it full
+	for _, s := range []sc{
+		{[]int{7, 8}, [][]stepSpec{{pu(1)}, {po()}}},
+		{[]int{7, 8}, [][]stepSpec{{o(1)}, {ta()}}},
+		{[]int{7}, [][]stepSpec{{pu(1), pu(2)}, {po()}}},
+		{[]int{7, 8}, [][]stepSpec{{pu(1)}, {o(2)}}},
+	} {
+		out = append(out, conScenario(false, "bounded-probe", s.pre, s.ts, b))
+	}
+	for _, s := range []sc{
+		{[]int{7, 8}, [][]stepSpec{{ps(1)}, {pp()}}},
+		{[]int{7}, [][]stepSpec{{ps(1), ps(2)}, {pp()}}},
+	} {
+		out = append(out, conScenario(true, "bounded-probe", s.pre, s.ts, b))
 	}
 	for _, inner := range []string{"probe", "linked"} {
 		for _, s := range queue {
